@@ -162,6 +162,9 @@ def run_driver(driver, cases, op_timeout=20, wall_timeout=None, env_extra=None):
                 ci, _oi = owners[begun]
                 try:
                     results[ci].events.append(json.loads(line[2:]))
+                except RecursionError:
+                    # the call returned normally; its (adversarially nested) result is too deep for the Python JSON decoder
+                    results[ci].events.append({'opaque': 'result nested too deeply to decode', 'has': False, 'ok': False, 'errors': [], 'type_errors': []})
                 except ValueError:
                     results[ci].events.append({'harness_error': 'unparsable event', 'raw': line[:400]})
             elif line.startswith('B '):
